@@ -14,12 +14,22 @@
 struct verif_in {
 	uint32_t crc;
 	int need_write, checked_read;
+	/* state_filter */
+	int has_file_rules, has_disk_rules, filter_missing, filter_error;
+	int by_disk[3], by_file[3], missing[3], incorrect; /* verdicts for the file, the link, the dir */
+	int par_by_disk[2];
+	unsigned level;
 };
 VERIF_DECLARE_IN
 
 /* ghost typestate: 0 old copies only, 1 .tmp copies written, 2 .tmp copies verified, 3 renamed */
 static int g_phase;
 static uint32_t g_crc_written;
+
+#ifdef VERIF_CBMC
+void msg_progress(const char *format, ...) { (void)format; }
+void msg_verbose(const char *format, ...) { (void)format; }
+#endif
 
 #include "cmdline/state.c"
 
@@ -37,6 +47,91 @@ static void state_rename_content(struct snapraid_state *state)
 __CPROVER_requires(g_phase == 2)
 __CPROVER_ensures(g_phase == 3)
 __CPROVER_assigns(g_phase);
+
+/* ---------------------------------------------------------------- state_filter (C18: -f / -d / -m / -e selection) */
+static tommy_list FL_FILE, FL_DISK;
+static struct snapraid_filter FF, FD;
+static struct snapraid_disk SD;
+static struct snapraid_file SF;
+static struct snapraid_link SL;
+static struct snapraid_dir SDIR;
+static const char *const SUBS[3] = { "file", "link", "dir" };
+
+static int which_sub(const char *sub)
+{
+	return sub == SUBS[0] ? 0 : sub == SUBS[1] ? 1 : 2;
+}
+
+int filter_path(tommy_list *filterlist, struct snapraid_filter **reason, const char *disk, const char *sub)
+__CPROVER_requires(filterlist == &FL_FILE || filterlist == &FL_DISK)
+__CPROVER_ensures(__CPROVER_return_value == (sub == 0
+	? (IN.par_by_disk[disk == lev_config_name(0) ? 0 : 1] ? -1 : 0)
+	/* an empty rule list includes everything (filter_element, unit filter.rule_list.*.nf0) */
+	: ((filterlist == &FL_DISK ? (IN.has_disk_rules && IN.by_disk[which_sub(sub)]) : (IN.has_file_rules && IN.by_file[which_sub(sub)])) ? -1 : 0)))
+__CPROVER_assigns();
+
+int filter_emptydir(tommy_list *filterlist, struct snapraid_filter **reason, const char *disk, const char *sub)
+__CPROVER_requires(filterlist == &FL_FILE || filterlist == &FL_DISK)
+__CPROVER_ensures(__CPROVER_return_value == ((filterlist == &FL_DISK ? (IN.has_disk_rules && IN.by_disk[2]) : (IN.has_file_rules && IN.by_file[2])) ? -1 : 0))
+__CPROVER_assigns();
+
+int filter_existence(int filter_missing, const char *dir, const char *sub)
+__CPROVER_ensures(__CPROVER_return_value == (filter_missing && IN.missing[which_sub(sub)] ? 1 : 0))
+__CPROVER_assigns();
+
+int filter_correctness(int filter_error, tommy_arrayblkof *infoarr, struct snapraid_disk *disk, struct snapraid_file *file)
+__CPROVER_ensures(__CPROVER_return_value == (filter_error && IN.incorrect ? 1 : 0))
+__CPROVER_assigns();
+
+void h_state_filter(void)
+{
+	static struct snapraid_state st;
+	static tommy_node dn;
+	int any, e[3];
+	unsigned l;
+	VERIF_INPUTS();
+	VERIF_ASSUME(IN.level >= 1 && IN.level <= 2);
+	tommy_list_init(&FL_FILE);
+	tommy_list_init(&FL_DISK);
+	if (IN.has_file_rules)
+		tommy_list_insert_tail(&FL_FILE, &FF.node, &FF);
+	if (IN.has_disk_rules)
+		tommy_list_insert_tail(&FL_DISK, &FD.node, &FD);
+	FD.is_disk = 1;
+	tommy_list_init(&st.disklist);
+	tommy_list_insert_tail(&st.disklist, &dn, &SD);
+	tommy_list_init(&SD.filelist);
+	tommy_list_init(&SD.linklist);
+	tommy_list_init(&SD.dirlist);
+	SF.sub = (char *)SUBS[0];
+	SL.sub = (char *)SUBS[1];
+	SDIR.sub = (char *)SUBS[2];
+	tommy_list_insert_tail(&SD.filelist, &SF.nodelist, &SF);
+	tommy_list_insert_tail(&SD.linklist, &SL.nodelist, &SL);
+	tommy_list_insert_tail(&SD.dirlist, &SDIR.nodelist, &SDIR);
+	st.level = IN.level;
+	/* goto-instrument --dfcc leaves statics nondeterministic: every field that matters is set here */
+	SF.flag = SL.flag = SDIR.flag = 0;
+	st.parity[0].is_excluded_by_filter = st.parity[1].is_excluded_by_filter = 0;
+#ifdef VERIF_NATIVE
+	exit(77);
+#endif
+	state_filter(&st, &FL_FILE, &FL_DISK, IN.filter_missing != 0, IN.filter_error != 0);
+
+	any = IN.filter_missing || IN.filter_error || IN.has_file_rules || IN.has_disk_rules;
+	e[0] = any && ((IN.has_disk_rules && IN.by_disk[0]) || (IN.has_file_rules && IN.by_file[0]) || (IN.filter_missing && IN.missing[0]) || (IN.filter_error && IN.incorrect));
+	e[1] = any && ((IN.has_disk_rules && IN.by_disk[1]) || (IN.has_file_rules && IN.by_file[1]) || (IN.filter_missing && IN.missing[1]));
+	e[2] = any && ((IN.has_disk_rules && IN.by_disk[2]) || (IN.has_file_rules && IN.by_file[2]) || (IN.filter_missing && IN.missing[2]));
+	VERIF_ASSERT(file_flag_has(&SF, FILE_IS_EXCLUDED) == e[0], "a file is excluded from check/fix iff the disk rules, the file rules, -m or -e say so");
+	VERIF_ASSERT(link_flag_has(&SL, FILE_IS_EXCLUDED) == e[1], "a link is excluded iff the disk rules, the file rules or -m say so");
+	VERIF_ASSERT(dir_flag_has(&SDIR, FILE_IS_EXCLUDED) == e[2], "an empty directory is excluded iff the disk rules, the file rules or -m say so");
+	for (l = 0; l < 2; ++l)
+		if (l < IN.level) {
+			int ex = !any ? 0 : IN.has_disk_rules ? (IN.par_by_disk[l] != 0) : (IN.filter_missing || IN.has_file_rules);
+			VERIF_ASSERT(st.parity[l].is_excluded_by_filter == ex, "parity is touched only when selected by a disk rule, or when no file/missing selection is active");
+		}
+	VERIF_CANARY();
+}
 
 void h_state_write(void)
 {
